@@ -203,11 +203,18 @@ fn gen_inst(rng: &mut Rng, tpls: &[Tpl], n: usize, defaults: bool) -> Inst {
         let k = rng.below(binds.len());
         if binds[k].0 != "label" && binds[k].0 != "kind" { binds.remove(k); }
     }
+    let mut classes = if rng.chance(1, 2) { vec![format!("u{}", rng.below(3))] } else { vec![] };
+    // a class of the reuse element written in terms of a variable that this very element binds: it belongs
+    // to the reuse element, so it is evaluated where that stands (document-level value "d"), not inside its bindings
+    if defaults && rng.chance(1, 2) {
+        classes.push((*rng.pick(&["v-$kind", "v-${kind}"])).to_string());
+        if !binds.iter().any(|(k, _)| k == "kind") { binds.push(("kind".to_string(), "q9".to_string())); }
+    }
     Inst {
         tpl: ti,
         binds,
         id: if rng.chance(1, 2) { Some(format!("i{n}")) } else { None },
-        classes: if rng.chance(1, 2) { vec![format!("u{}", rng.below(3))] } else { vec![] },
+        classes,
         style: if rng.chance(1, 4) { Some("fill: red".into()) } else { None },
         xy: if rng.chance(5, 6) { Some((num(rng, -40, 40), num(rng, -40, 40))) } else { None },
         over: match &t.overridable { Some((k, _)) if rng.chance(1, 2) => Some((k.to_string(), rng.pick(&["3", "0.25", "head"]).to_string())), _ => None },
@@ -238,7 +245,7 @@ fn reuse_x(t: &Tpl, i: &Inst) -> X {
 /// the template written out by hand for one instantiation
 fn inline_x(tpls: &[Tpl], t: &Tpl, i: &Inst) -> X {
     let mut classes: Vec<String> = t.classes.iter().map(|c| subst(c, &i.binds)).collect();
-    classes.extend(i.classes.iter().cloned());
+    classes.extend(i.classes.iter().map(|c| c.replace("${kind}", "d").replace("$kind", "d")));
     classes.push(t.id.clone());
     let dress = |attrs: &mut Vec<(String, String)>| {
         attrs.retain(|(k, _)| k != "id" && k != "class");
